@@ -44,13 +44,14 @@ type Streams struct {
 	Seed     uint64
 	Alt      map[ID]uint64
 	AltSetup map[ID]uint64
+	Fault    map[ID]int       // one-shot read fault: the n-th Read call (1-based) of the party's protocol stream fails once
 	Rec      map[ID]*Recorder // protocol-stream recorders
 	nSetup   map[ID]uint64
 	nProto   map[ID]uint64
 }
 
 func NewStreams(seed uint64) *Streams {
-	return &Streams{Seed: seed, Alt: map[ID]uint64{}, AltSetup: map[ID]uint64{}, Rec: map[ID]*Recorder{}, nSetup: map[ID]uint64{}, nProto: map[ID]uint64{}}
+	return &Streams{Seed: seed, Alt: map[ID]uint64{}, AltSetup: map[ID]uint64{}, Fault: map[ID]int{}, Rec: map[ID]*Recorder{}, nSetup: map[ID]uint64{}, nProto: map[ID]uint64{}}
 }
 
 // Setup returns the next set-up reader of party id.
@@ -72,7 +73,7 @@ func (st *Streams) Proto(id ID) io.Reader {
 	if a, ok := st.Alt[id]; ok {
 		sd = a
 	}
-	r := &Recorder{R: tr.Rng(sd, 900000+uint64(id))}
+	r := &Recorder{R: tr.Rng(sd, 900000+uint64(id)), FailAt: st.Fault[id]}
 	st.Rec[id] = r
 	return r
 }
@@ -84,7 +85,14 @@ type Recorder struct {
 	Round int
 	Reads []Read
 	ByRnd map[int]int
+	// fault injection: the FailAt-th call fails once (nothing is consumed); later calls succeed again (a transient fault)
+	FailAt    int
+	Calls     int
+	FailRound int // round in which the fault was delivered (0: never reached)
 }
+
+// ErrInjected is what a faulted read returns.
+var ErrInjected = fmt.Errorf("injected read fault")
 
 type Read struct {
 	Round int
@@ -94,6 +102,14 @@ type Read struct {
 func (r *Recorder) Read(p []byte) (int, error) {
 	r.mu.Lock()
 	defer r.mu.Unlock()
+	r.Calls++
+	if r.FailAt > 0 && r.Calls == r.FailAt {
+		r.FailRound = r.Round
+		if r.FailRound == 0 {
+			r.FailRound = -1 // before the first round (constructor)
+		}
+		return 0, ErrInjected
+	}
 	n, err := r.R.Read(p)
 	if n > 0 {
 		r.Reads = append(r.Reads, Read{Round: r.Round, Data: append([]byte(nil), p[:n]...)})
